@@ -155,6 +155,60 @@ func hasNoProgressBranch(fds []*ast.FuncDecl) bool {
 	return found
 }
 
+// dropsEmptyRemainder: split() ends with `if len(res) > 0 && <receiver payload>.Len() == 0 { return res }` before the
+// receiver is appended
+func dropsEmptyRemainder(fds []*ast.FuncDecl) bool {
+	found := false
+	for _, fd := range fds {
+		if fd.Name.Name != "split" {
+			continue
+		}
+		for _, st := range fd.Body.List {
+			is, ok := st.(*ast.IfStmt)
+			if !ok || is.Init != nil || is.Else != nil || len(is.Body.List) != 1 {
+				continue
+			}
+			and, ok := is.Cond.(*ast.BinaryExpr)
+			if !ok || and.Op != token.LAND {
+				continue
+			}
+			l, ok1 := and.X.(*ast.BinaryExpr)
+			r, ok2 := and.Y.(*ast.BinaryExpr)
+			if !ok1 || !ok2 || l.Op != token.GTR || r.Op != token.EQL {
+				continue
+			}
+			lc, ok1 := l.X.(*ast.CallExpr)
+			rc, ok2 := r.X.(*ast.CallExpr)
+			if !ok1 || !ok2 {
+				continue
+			}
+			if id, ok := lc.Fun.(*ast.Ident); !ok || id.Name != "len" || len(lc.Args) != 1 {
+				continue
+			}
+			if id, ok := lc.Args[0].(*ast.Ident); !ok || id.Name != "res" {
+				continue
+			}
+			if se, ok := rc.Fun.(*ast.SelectorExpr); !ok || se.Sel.Name != "Len" {
+				continue
+			}
+			if bl, ok := l.Y.(*ast.BasicLit); !ok || bl.Value != "0" {
+				continue
+			}
+			if bl, ok := r.Y.(*ast.BasicLit); !ok || bl.Value != "0" {
+				continue
+			}
+			rs, ok := is.Body.List[0].(*ast.ReturnStmt)
+			if !ok || len(rs.Results) != 1 {
+				continue
+			}
+			if id, ok := rs.Results[0].(*ast.Ident); ok && id.Name == "res" {
+				found = true
+			}
+		}
+	}
+	return found
+}
+
 func main() {
 	repo := os.Args[1]
 	dir := filepath.Join(repo, "exporter/exporterhelper")
@@ -217,6 +271,16 @@ func main() {
 	if np != 0 && np != 4 {
 		die("only %d of the 4 split() functions handle rmSize == 0", np)
 	}
+	// 4. empty remainder not returned
+	de := 0
+	for _, k := range []string{"logs", "traces", "profiles", "metrics"} {
+		if dropsEmptyRemainder(fds[k]) {
+			de++
+		}
+	}
+	if de != 0 && de != 4 {
+		die("only %d of the 4 split() functions skip an empty remainder", de)
+	}
 	fmt.Printf("/-! GENERATED by translators/cmd/c04shape from exporter/exporterhelper/*_batch.go — do not edit -/\n")
 	fmt.Printf("namespace OtelVerif.Gen.C04Shape\n\n")
 	fmt.Printf("/-- logs_batch.go, traces_batch.go, xexporterhelper/profiles_batch.go agree up to renaming; functions: %s -/\n", strings.Join(names, ", "))
@@ -225,5 +289,7 @@ func main() {
 	fmt.Printf("def metricFragmentKeepsIdentity : Bool := %v\n\n", keeps)
 	fmt.Printf("/-- split() sends an item that cannot be extracted within max_size alone (`rmSize == 0` branch) -/\n")
 	fmt.Printf("def splitHandlesNoProgress : Bool := %v\n\n", np == 4)
+	fmt.Printf("/-- split() does not return the receiver when nothing is left in it and there are other results (`len(res) > 0 && ….Len() == 0`) -/\n")
+	fmt.Printf("def splitDropsEmptyRemainder : Bool := %v\n\n", de == 4)
 	fmt.Printf("end OtelVerif.Gen.C04Shape\n")
 }
